@@ -413,6 +413,8 @@ class Machine:
         self.index_log = None  # list of symbolic indices
         self.instr_count = 0
         self.alloc_label = ''
+        self._idx_w = {}
+        self._merge_w = None
         self.concretize_slices = False  # symbolic slice offsets/lengths are kept symbolic (concretised on demand)
         from . import builtins_go
         builtins_go.install(self)
@@ -507,10 +509,23 @@ class Machine:
             i += 1
         return node
 
+    def note_elem_width(self, idx, elem_tid):
+        """remember the integer width of the leaves below a symbolically indexed array (needed to merge concrete ints)"""
+        t = self.prog.under(elem_tid)
+        w = None
+        if t['k'] == 'basic' and t.get('int'):
+            w = t['bits']
+        self._idx_w[idx.id] = w
+
     def _merge_indexed(self, idx, vals):
         r = vals[-1]
-        for j in range(len(vals) - 2, -1, -1):
-            r = self.merge(tm.eq(idx, j, idx.w), vals[j], r)
+        old = self._merge_w
+        self._merge_w = self._idx_w.get(idx.id) or old
+        try:
+            for j in range(len(vals) - 2, -1, -1):
+                r = self.merge(tm.eq(idx, j, idx.w), vals[j], r)
+        finally:
+            self._merge_w = old
         return r
 
     def merge(self, c, a, b):
@@ -526,7 +541,11 @@ class Machine:
             if w is None:
                 if a == b:
                     return a
-                raise Unsupported("merge of ints with unknown width")
+                # concrete leaves: width from the indexed array's element type, else limbs (every integer array reached
+                # through a symbolic index in this code base is []byte / [n]byte or 64-bit limbs)
+                w = self._merge_w or (64 if max(a, b) > 255 else None)
+                if w is None:
+                    raise Unsupported("merge of ints with unknown width")
             return tm.ite(c, a, b, w)
         if isinstance(a, Ptr) and isinstance(b, Ptr) and a.same(b):
             return a
@@ -1011,12 +1030,15 @@ def _i_indexaddr(m, fr, I):
         e = tm.bv('add', x.off, idx, 64)
         if isinstance(e, T):
             e = m.index_term(e, x)
+            m.note_elem_width(e, m.prog.under(I['xt'])['elem'])
         fr[I['n']] = Ptr(x.obj, x.path + (e,))
     else:
         t = m.prog.under(m.prog.under(I['xt'])['elem'])
         if x.obj is None:
             raise GoPanic('nil pointer dereference', I.get('pos'))
         idx = _check_index(m, idx, t['len'], 64, I.get('pos'))
+        if isinstance(idx, T):
+            m.note_elem_width(idx, t['elem'])
         fr[I['n']] = Ptr(x.obj, x.path + (idx,))
 
 
